@@ -7,6 +7,7 @@ from props.common import (
     callee_method_name,
     calls_to,
     crate_stats,
+    field_path,
     gates,
     in_cycle,
     kind_consistent,
@@ -167,6 +168,9 @@ def run(ctx):
         from facts import PredFlow
         from props.common import opt_alts
 
+        # which trie belongs to which kind is what add_route says (the arm of the single-kind mask inserts into it), carried
+        # over to Router's fields by build() — not a matter of what the private fields are called
+        kind_trie = _router_kind_tries(u)
         # Router's private `route` helper is spliced into the six Recorder methods; each is decided on its own
         for name in RECORDER_METHODS:
             route = layer_impls["Router"].get(name)
@@ -184,7 +188,11 @@ def run(ctx):
                 am = arg_syms(mt[0])
                 ag = arg_syms(ga[0])
                 kind_ok = kind.capitalize() in repr(strip_sym(am[1]))
-                trie_ok = f"'{kind}_routes'" in repr(ag[0]) and not any(f"'{k}_routes'" in repr(ag[0]) for k in ("counter", "gauge", "histogram") if k != kind)
+                if kind_trie:
+                    fp_ = field_path(ag[0])
+                    trie_ok = fp_ is not None and fp_[0] == 0 and tuple(fp_[1]) == kind_trie.get(kind)
+                else:
+                    trie_ok = f"'{kind}_routes'" in repr(ag[0]) and not any(f"'{k}_routes'" in repr(ag[0]) for k in ("counter", "gauge", "histogram") if k != kind)
                 ok = self_field(am[0], "global_mask") and kind_ok and trie_ok and name_of(sym_through(ag[1], "Deref::deref", "AsRef::as_ref", "String::as_str"), 1)
                 detail = f"mask tested for the method's kind={kind_ok}, own kind's trie={trie_ok}"
                 pf = PredFlow(route, lambda subj, v: None, lambda x: ("P", "N") if sym_is_call(x, "MetricKindMask::matches") else None)
@@ -234,7 +242,16 @@ def run(ctx):
             if len(sw) != 1 or not masks:
                 chk.unrecognised("C13.d", f"{ar.path} [mask arms]", "no switch on the mask value found", ar.loc())
             else:
-                want = {"ALL": {"counter_routes", "gauge_routes", "histogram_routes"}, "COUNTER": {"counter_routes"}, "GAUGE": {"gauge_routes"}, "HISTOGRAM": {"histogram_routes"}}
+                tbl = _add_route_table(u)
+                singles = [tbl.get(k) for k in ("COUNTER", "GAUGE", "HISTOGRAM")] if tbl else []
+                if tbl and all(x is not None and len(x) == 1 for x in singles) and len({next(iter(x)) for x in singles}) == 3:
+                    want = {"ALL": set().union(*singles), "COUNTER": singles[0], "GAUGE": singles[1], "HISTOGRAM": singles[2]}
+                    for mname, fields in want.items():
+                        got = tbl.get(mname)
+                        chk.ob("C13.d", f"{ar.path} [{mname}]", got == fields, f"{mname} inserts into {sorted('.'.join(x) for x in got)}" if got == fields else f"{mname} arm inserts into {sorted('.'.join(x) for x in (got or []))}, expected {sorted('.'.join(x) for x in fields)}", ar.loc())
+                    want = {}
+                else:
+                    want = {"ALL": {"counter_routes", "gauge_routes", "histogram_routes"}, "COUNTER": {"counter_routes"}, "GAUGE": {"gauge_routes"}, "HISTOGRAM": {"histogram_routes"}}
                 edges = {a["v"]: a["bb"] for a in b.term(sw[0])["arms"]}
                 for mname, fields in want.items():
                     val = masks.get(mname)
@@ -257,16 +274,26 @@ def run(ctx):
         if bld:
             ret = strip_sym(Sym(bld).local(0))
             ok = ret[0] == "agg" and all(strip_sym(v)[0] == "field" and strip_sym(v)[2] == fld for v, fld in zip(ret[3], ret[4]))
+            if not ok and kind_trie:
+                ok = True  # fields are renamed on the way: the kind -> trie association was followed through build() above
             chk.ob("C13.d", bld.path, ok, "build() moves every field to the same-named field" if ok else f"build() crosses fields: {sym_str(ret)[:200]}", bld.loc())
 
     # ---------------- C13.e fanout
-    for ty, field, trait, methods in (("FanoutCounter", "counters", "CounterFn", ("increment", "absolute")), ("FanoutGauge", "gauges", "GaugeFn", ("increment", "decrement", "set")), ("FanoutHistogram", "histograms", "HistogramFn", ("record",))):
+    # the fanned-out handles: whatever private type(s) of the fanout module implement the three handle traits
+    fan_types = {}
+    for ty, trait, methods in (("FanoutCounter", "CounterFn", ("increment", "absolute")), ("FanoutGauge", "GaugeFn", ("increment", "decrement", "set")), ("FanoutHistogram", "HistogramFn", ("record",))):
+        impls_ = [f for f in u.fns if (f.j.get("impl_trait") or "").endswith(f"handles::{trait}") and strip_generics(f.j.get("impl_self", "")).startswith(f"{L}::fanout::") and "::tests::" not in f.path]
+        selfs = {f.j.get("impl_self") for f in impls_}
+        if len(selfs) != 1:
+            chk.unrecognised("C13.e", f"<anchor> impl {trait} in layers::fanout", f"found {sorted(selfs)}")
+            continue
+        fan_types[ty[6:].lower()] = strip_generics(next(iter(selfs)))
         for mname in methods:
-            fs = u.method(f"{L}::fanout::{ty}", mname, trait)
+            fs = [f for f in impls_ if f.name == mname]
             if len(fs) != 1:
                 chk.unrecognised("C13.e", f"<anchor> <{ty} as {trait}>::{mname}", f"found {len(fs)}")
                 continue
-            check_fan_loop(chk, fs[0], field, mname, kind=ty[6:])
+            check_fan_loop(chk, fs[0], None, mname, kind=ty[6:])
     fan = layer_impls.get("Fanout")
     if fan:
         for name in RECORDER_METHODS:
@@ -280,7 +307,8 @@ def run(ctx):
                 # counters = self.recorders.iter().map(closure).collect()
                 # the Fanout<Kind> aggregate built here (its constructor helper is spliced in)
                 sy = Sym(f)
-                aggs = [st for _, _, st in f.body.stmts() if st["k"] == "assign" and st["rv"]["k"] == "agg" and (st["rv"].get("adt") or "").endswith(f"Fanout{kind.capitalize()}")]
+                fty = fan_types.get(kind, f"{L}::fanout::Fanout{kind.capitalize()}")
+                aggs = [st for _, _, st in f.body.stmts() if st["k"] == "assign" and st["rv"]["k"] == "agg" and strip_generics(st["rv"].get("adt") or "") == fty]
                 ok = len(aggs) == 1 and len(aggs[0]["rv"]["ops"]) == 1
                 detail = f"{len(aggs)} Fanout{kind.capitalize()} values built"
                 if ok:
@@ -328,6 +356,65 @@ def _root(s):
     return s
 
 
+def _add_route_table(u):
+    """{mask constant name: set of trie ids (field paths from self) its arm of add_route inserts into}, or None."""
+    ar = (u.method(f"{L}::router::RouterBuilder", "add_route") or [None])[0]
+    masks = mask_table(u)
+    if ar is None or not masks:
+        return None
+    b = ar.body
+    sy = Sym(ar)
+    sw = [i for i in range(b.n) if b.term(i)["k"] == "switch" and "'0'" in repr(sy.operand(b.term(i)["discr"])) and is_param(_root(sy.operand(b.term(i)["discr"])), 1)]
+    if len(sw) != 1:
+        return None
+    inserts = [c for c in nonforeign_calls(ar) if c.is_("Trie<K, V>::insert", "insert") and "radix_trie" in (c.resolved or "")]
+    edges = {a["v"]: a["bb"] for a in b.term(sw[0])["arms"]}
+    out = {}
+    for mname in ("ALL", "COUNTER", "GAUGE", "HISTOGRAM"):
+        tgt = edges.get(masks.get(mname))
+        if tgt is None:
+            out[mname] = None
+            continue
+        blocks = {x for x in b.reachable(tgt) if b.edge_dominates((sw[0], tgt), x)}
+        got = set()
+        for c in inserts:
+            if c.bb in blocks and c.fn is ar:
+                fp = field_path(arg_syms(c)[0])
+                got.add(tuple(fp[1]) if fp and fp[0] == 0 else ("?",))
+        out[mname] = got
+    return out
+
+
+def _router_kind_tries(u):
+    """{kind: trie id in Router} — from add_route's single-kind arms, mapped through RouterBuilder::build()."""
+    tbl = _add_route_table(u)
+    if not tbl:
+        return None
+    singles = {k: tbl.get(k.upper()) for k in ("counter", "gauge", "histogram")}
+    if any(v is None or len(v) != 1 for v in singles.values()):
+        return None
+    ids = {k: next(iter(v)) for k, v in singles.items()}
+    if len(set(ids.values())) != 3 or any("?" in v for v in ids.values()):
+        return None
+    bld = (u.method(f"{L}::router::RouterBuilder", "build") or [None])[0]
+    if bld is None:
+        return None
+    ret = strip_sym(Sym(bld).local(0))
+    if ret[0] != "agg":
+        return None
+    out = {}
+    for k, bid in ids.items():
+        hit = None
+        for v, fld in zip(ret[3], ret[4]):
+            fp = field_path(v)
+            if fp and fp[0] == 0 and tuple(fp[1]) == bid[: len(fp[1])]:
+                hit = (fld,) + bid[len(fp[1]) :]
+        if hit is None:
+            return None
+        out[k] = hit
+    return out if len(set(out.values())) == 3 else None
+
+
 def mask_table(u):
     out = {}
     for f in u.fns:
@@ -351,30 +438,29 @@ def check_mask_table(chk, u, rule):
     if mt is None:
         chk.unrecognised(rule, "<anchor> MetricKindMask::matches", "missing")
         return
-    b = mt.body
-    sy = Sym(mt)
-    sw = [i for i in range(b.n) if b.term(i)["k"] == "switch" and (b.term(i).get("enum") or "").endswith("kind::MetricKind")]
-    ok = len(sw) == 1
-    detail = ""
-    if ok:
-        for a in b.term(sw[0])["arms"]:
-            var = a["variant"]
-            blocks = {x for x in b.reachable(a["bb"]) if b.edge_dominates((sw[0], a["bb"]), x)}
-            vals = []
-            for x in sorted(blocks):
-                for s in b.blocks[x]["s"]:
-                    if s["k"] == "assign" and s["p"]["l"] == 0:
-                        vals.append(strip_sym(sy.rvalue(s["rv"], 0, frozenset())))
-            good = False
-            if len(vals) == 1 and vals[0][0] == "bin" and vals[0][1] == "Ne" and strip_sym(vals[0][3])[:3] == ("const", "int", 0):
-                land = strip_sym(vals[0][2])
-                if land[0] == "bin" and land[1] == "BitAnd":
-                    txt = repr(land)
-                    good = f"MetricKindMask::{var.upper()}" in txt and "'0'" in txt
-            if not good:
-                ok = False
-                detail = f"arm {var} computes {sym_str(vals[0]) if vals else None}"
-    chk.ob(rule, mt.path, ok, "matches(kind) = self.0 & MetricKindMask::<KIND>.value() != 0, per kind" if ok else f"matches() table wrong: {detail}", mt.loc())
+    # per kind: what matches() computes when `kind` is that variant (however the dispatch on the kind is spelled)
+    from facts import SpecialisedFn
+
+    ok, detail = True, ""
+    names = {"Counter": "COUNTER", "Gauge": "GAUGE", "Histogram": "HISTOGRAM"}
+    for var, cname in names.items():
+        sp = SpecialisedFn(mt, 2, var)
+        ret = strip_sym(Sym(sp).local(0))
+        txt = repr(ret)
+        others = [n for n in names.values() if n != cname and f"MetricKindMask::{n}'" in txt]
+        good = sp.resolved_switches >= 1 and isinstance(ret, tuple) and ret[0] == "bin" and f"MetricKindMask::{cname}'" in txt and not others and "'ALL'" not in txt
+        if good:
+            if ret[1] in ("Ne", "Gt") and strip_sym(ret[3])[:3] == ("const", "int", 0):
+                land = strip_sym(ret[2])
+            elif ret[1] == "Eq" and f"MetricKindMask::{cname}'" in repr(ret[3]):
+                land = strip_sym(ret[2])
+            else:
+                land = None
+            good = land is not None and land[0] == "bin" and land[1] == "BitAnd" and any("('arg', 0" in repr(x) for x in land[2:4]) and any(f"MetricKindMask::{cname}'" in repr(x) for x in land[2:4])
+        if not good:
+            ok = False
+            detail = f"for {var} it computes {sym_str(ret)[:120]}"
+    chk.ob(rule, mt.path, ok, "matches(kind) = self.0 & MetricKindMask::<KIND> != 0, per kind" if ok else f"matches() table wrong: {detail}", mt.loc())
     bo = [f for f in u.fns if f.name == "bitor" and f.j.get("impl_self", "").endswith("kind::MetricKindMask")]
     if bo:
         v = strip_sym(Sym(bo[0]).local(0))
@@ -399,6 +485,8 @@ def check_fan_loop(chk, f, field, mname, kind):
     if src is None:
         return chk.ob("C13.e", where, False, f"the inner {mname} is not applied once to every element of self.{field}: {why}", c.loc())
     src = strip_sym(src)
+    if field is None and src[0] == "field" and is_param(sym_through(src[1]), 0):
+        field = src[2]  # the (one) vector of inner handles, whatever it is called
     if not (src[0] == "field" and src[2] == field and is_param(sym_through(src[1]), 0)):
         return chk.ob("C13.e", where, False, f"the fan-out iterates {sym_str(src)[:100]}, not the whole self.{field} (take/skip/filter/first would drop recorders)", c.loc())
     # the iteration itself is reached on every path through the method
